@@ -25,8 +25,8 @@ RULE = (
 )
 BOUNDS = {"rows": "40-240", "quantitative": "3-8", "qualitative": "3-6", "selections_per_case": "2-4"}
 ASSUMPTIONS = ["row permutations change floating-point summation order: exact ties of recomputed measures are not judged"]
-BUDGET = {"quick": 1500, "thorough": 16000}
-DEADLINE_S = {"quick": 230, "thorough": 2800}
+BUDGET = {"quick": 1500, "thorough": 40000}
+DEADLINE_S = {"quick": 230, "thorough": 3300}
 
 
 def strategy(tier):
